@@ -168,7 +168,7 @@ impl C19 {
         if tape.chance(1, 5) { return competing_case(tape); }
         if tape.chance(1, 3) {
             let fmt = pick_fmt(tape);
-            let game = *tape.pick(games_for(fmt));
+            let game = if fmt == Fmt::Ecl && tape.chance(1, 3) { *tape.pick(MODERN_ECL_GAMES) } else { *tape.pick(games_for(fmt)) };
             let f = gen_file(tape, fmt, game, tier.pick(8, 16));
             // an MSG file with unused scripts: several warnings whose order must be stable
             let extra = if matches!(fmt, Fmt::Msg | Fmt::End) && tape.chance(1, 2) { (0..(2 + tape.below(5))).map(|i| format!("script unused{} {{\n}}\n\n", i)).collect::<String>() } else { String::new() };
